@@ -20,6 +20,7 @@ import json
 import random
 import signal
 import warnings
+import zlib
 import xml.etree.ElementTree as ET
 
 from vf import bindcase as bc
@@ -87,13 +88,15 @@ def allowed():
     return (ParserError, ConverterError, XmlContextError, XmlHandlerError)
 
 
-def run_xml(data: bytes, clazz, handler):
+def run_xml(data: bytes, clazz, handler, lenient=False):
     """-> (status, value, steps)"""
     from xsdata.formats.dataclass.context import XmlContext
     from xsdata.formats.dataclass.parsers import XmlParser
+    from xsdata.formats.dataclass.parsers.config import ParserConfig
 
     _steps[0] = 0
-    p = XmlParser(context=XmlContext(), handler=bc.handler_cls(handler))
+    cfg = ParserConfig(fail_on_unknown_properties=False, fail_on_unknown_attributes=False, fail_on_converter_warnings=False) if lenient else ParserConfig()
+    p = XmlParser(context=XmlContext(), handler=bc.handler_cls(handler), config=cfg)
     signal.signal(signal.SIGALRM, _alarm)
     signal.alarm(20)
     try:
@@ -128,6 +131,14 @@ def judge_xml(ctx, data: bytes, clazz, fault, w0, original=None):
         ctx.hook("NodeParser.start", steps)
         w = dict(w0)
         w.update(fault=fault, faulted=data.decode("latin-1"), handler=handler)
+        if zlib.crc32(data) % 2 == 0:  # the same input with every fail_on_* option off: skipped content must not leak either
+            st2, val2, _ = run_xml(data, clazz, handler, lenient=True)
+            ctx.evals()
+            ctx.feature("config:lenient")
+            if st2 == "leak":
+                ctx.violation(f"leaks-lenient/{type(val2).__name__}/{fault.split(':')[0]}/{handler}/{bc.short_exc(val2)[:90]}", f"all fail_on_* options off: {type(val2).__name__}: {val2}\nfault={fault}\n{data[:1200]!r}", w)
+            elif st2 == "watchdog":
+                ctx.inconc(f"watchdog fired (lenient) for a {len(data)}-byte input ({fault})")
         if st == "watchdog":
             ctx.inconc(f"watchdog fired for a {len(data)}-byte input ({fault})")
         elif st == "leak":
